@@ -16,7 +16,7 @@ Import ListNotations.
 Require Import Verif.Lib.Wire Verif.Lib.Text Verif.Lib.PathNorm Verif.Lib.Utf8 Verif.Lib.Percent Verif.Lib.C07Types
                Verif.Gen.Facts_C02 Verif.Gen.Facts_C07 Verif.Model.C02 Verif.Model.C07
                Verif.Proofs.C02_memo Verif.Proofs.C07_rt Verif.Proofs.C07 Verif.Proofs.C07_hist Verif.Proofs.C07_c17
-               Verif.Gen.Code_C07 Verif.Proofs.C07_gen Verif.Proofs.C07_elt.
+               Verif.Gen.Code_C07 Verif.Proofs.C07_gen Verif.Proofs.C07_elt Verif.Proofs.C07_elt2.
 Require Verif.Proofs.C02_gen.
 Require Verif.Model.C17.
 
@@ -430,3 +430,31 @@ Theorem C07_spec_ext_sound : forall raw c e1 e2 i sv,
   nth_error (model_ext UrlTupleCompare raw c e1 e2) i = Some sv.
 Proof. exact spec_ext_sound. Qed.
 Print Assumptions C07_spec_ext_sound.
+
+(* ------------------------------------------------------------------ proof-only round (Proofs/C07_elt2.v) *)
+(* generate-then-resolve for elements of any type: resource_path(r, *els) is the path of the descendant r' of r that the
+   elements name (bytes as UTF-8, other objects printed), and find_resource leads from any start resource to r' *)
+Theorem C07_typed_path_is_descendant_path : forall root r r' names els ts,
+  good_resource root r = Some names -> good_resource root r' = Some (names ++ ts) -> elts_texts els = Some ts ->
+  resource_path_e root r els = resource_path root r' [].
+Proof. exact typed_path_is_descendant_path. Qed.
+Print Assumptions C07_typed_path_is_descendant_path.
+
+Theorem C07_typed_path_resolves_to_descendant : forall root r r' a names els ts,
+  good_resource root r = Some names -> good_resource root r' = Some (names ++ ts) -> elts_texts els = Some ts ->
+  xbind (resource_path_e root r els) (fun s => find7 root a (PStr s)) = Val (FoundAt r').
+Proof. exact typed_path_resolves_to_descendant. Qed.
+Print Assumptions C07_typed_path_resolves_to_descendant.
+
+(* the code as it is now (regenerated fact c07_join_raw_key = false: no memo on _join_path_tuple): the second typed call
+   does not depend on what was asked before, and the spec of observations 16..22 is met without a side condition *)
+Theorem C07_second_call_history_free : forall root r e1 e2,
+  resource_path_second c07_join_raw_key root r e1 e2 = resource_path_e root r e2.
+Proof. exact second_call_history_free. Qed.
+Print Assumptions C07_second_call_history_free.
+
+Theorem C07_spec_ext_sound_now : forall c e1 e2 i sv,
+  nth_error (spec_ext c e1 e2) i = Some sv -> sv <> none_val ->
+  nth_error (model_ext UrlTupleCompare c07_join_raw_key c e1 e2) i = Some sv.
+Proof. exact spec_ext_sound_now. Qed.
+Print Assumptions C07_spec_ext_sound_now.
